@@ -29,7 +29,8 @@ ASSUMPTIONS = ["same-host theorems assume an origin-form request target (path st
                "with 'scheme:'; the absolute-form case is the open known finding 'absolute-form-target'"]
 RULE = ("request targets built from slash runs, host-like segments, backslashes, encoded slashes, schemes and queries x methods {GET, HEAD, POST, PUT, "
         "OPTIONS, lower-case, unknown, malformed} x Host values (valid and invalid) x {removeslash, addslash, static handler with/without default file "
-        "over a fixture tree, authenticated with 20 login URLs / no login URL / logged-in user, self.redirect with URL/permanent/status/after-flush}; "
+        "over a fixture tree mounted behind a catch-all pattern and at the site root ('/(.*)', incl. targets with a percent-encoded slash after the leading "
+        "slash that climb back to the absolute static root), authenticated with 20 login URLs / no login URL / logged-in user, self.redirect with URL/permanent/status/after-flush}; "
         "distinct by input; non-trivial = a redirect or an error status was produced")
 LOGINS = ["/login", "/login?x=1", "http://sso.example/login", "https://sso.example/l?", "login", "//sso.example/l", " http://x/l", "ht\ttp://x/l",
           "1http://x", "http:/l", "/l:x", "/l#f", "HTTP://X", "x+y-z.1:rest", "/登录", "a:?", ":x", "http", "/caf\xe9", "\nhttps://x/l", None]
@@ -55,7 +56,7 @@ def pre_build():
 
 def fixture_root():
     if "root" not in _state:
-        root = tempfile.mkdtemp(prefix="c28_", dir=SCRATCH)
+        root = os.path.abspath(tempfile.mkdtemp(prefix="c28_", dir=SCRATCH))
         os.makedirs(os.path.join(root, "dir", "sub"))
         with open(os.path.join(root, "dir", "index.html"), "w") as f:
             f.write("idx")
@@ -67,7 +68,18 @@ def fixture_root():
     return _state["root"]
 
 
-STATIC_PATTERN = r"(?:http://[^/]*)?/*(.*)"
+STATIC_PATTERN = r"(?:http://[^/]*)?/*(.*)"        # mount "catchall"
+ROOT_PATTERN = r"/(.*)"                              # mount "root": StaticFileHandler at the site root (static_url_prefix="/")
+
+
+def static_pattern(case):
+    return ROOT_PATTERN if case.get("mount") == "root" else STATIC_PATTERN
+
+
+def tgt(case):
+    """the request target as sent: "{ROOT}" stands for the absolute path of the fixture's static root (differs per run)"""
+    t = case["target"]
+    return t.replace("{ROOT}", fixture_root()) if "{ROOT}" in t else t
 
 
 def app_for(case):
@@ -77,7 +89,7 @@ def app_for(case):
     if kind == "KAuth":
         key = ("KAuth", case["login"])
     elif kind == "KStatic":
-        key = ("KStatic", bool(case["default"]))
+        key = ("KStatic", bool(case["default"]), case.get("mount") == "root")
     if key in _state:
         return _state[key]
     if kind in ("KRemove", "KAdd"):
@@ -93,7 +105,7 @@ def app_for(case):
         opts = {"path": fixture_root()}
         if case["default"]:
             opts["default_filename"] = "index.html"
-        app = web.Application([(STATIC_PATTERN, web.StaticFileHandler, opts)])
+        app = web.Application([(static_pattern(case), web.StaticFileHandler, opts)])
     elif kind == "KAuth":
         class Au(web.RequestHandler):
             def get_current_user(self):
@@ -136,7 +148,7 @@ def run_impl(case):
     if case["kind"] == "KRedirect":
         app._c28_handler.cfg = case
     extra = "X-User: u\r\n" if case.get("user") else ""
-    raw = ("%s %s HTTP/1.1\r\nHost: %s\r\n%s\r\n" % (case["method"], case["target"], case["host"], extra)).encode("latin-1")
+    raw = ("%s %s HTTP/1.1\r\nHost: %s\r\n%s\r\n" % (case["method"], tgt(case), case["host"], extra)).encode("latin-1")
 
     async def scenario(loop):
         srv = HTTPServer(app)
@@ -168,8 +180,8 @@ def run_impl(case):
 
 def fs_facts(case):
     """The environment's answer for the static handler, computed independently of web.py."""
-    path = case["target"].partition("?")[0]
-    m = re.match(STATIC_PATTERN + "$", path)
+    path = tgt(case).partition("?")[0]
+    m = re.match(static_pattern(case) + "$", path)
     captured = m.group(1)
     arg = urllib.parse.unquote_to_bytes(captured).decode("utf-8")     # generator keeps these valid
     root = os.path.abspath(fixture_root())
@@ -203,7 +215,7 @@ def coq_kind(case):
 
 
 def coq_input(case):
-    return "(%s, %s, %s, %s)" % (coq_kind(case), gtext(case["method"]), gtext(case["target"]), gtext(case["host"]))
+    return "(%s, %s, %s, %s)" % (coq_kind(case), gtext(case["method"]), gtext(tgt(case)), gtext(case["host"]))
 
 
 def py_check(case, o):
@@ -225,7 +237,7 @@ def py_check(case, o):
         return loc.startswith(lg + "?next=") and re.fullmatch(r"[A-Za-z0-9_.~%+-]*", loc[len(lg) + 6:]) is not None
     sp = urllib.parse.urlsplit(loc)
     ok = not loc.startswith("//") and not sp.scheme and not sp.netloc
-    if case["target"].startswith("/"):
+    if tgt(case).startswith("/"):
         ok = ok and loc.startswith("/")
     return ok
 
@@ -246,6 +258,7 @@ def mk(kind, method, target, host="h.example", **kw):
         c["user"] = bool(kw.get("user", False))
     elif kind == "KStatic":
         c["default"] = bool(kw.get("default", True))
+        c["mount"] = kw.get("mount", "catchall")
     elif kind == "KRedirect":
         c["url"] = kw.get("url", "/x")
         c["permanent"] = bool(kw.get("permanent", False))
@@ -260,6 +273,10 @@ def corpus_cases():
             mk("KStatic", "GET", "//dir"), mk("KStatic", "GET", "/dir"), mk("KStatic", "GET", "/dir", default=False),
             mk("KStatic", "GET", "/dir/sub"), mk("KStatic", "GET", "/dir/sub/"), mk("KStatic", "GET", "/../.."), mk("KStatic", "POST", "/dir"),
             mk("KStatic", "HEAD", "/dir/../dir?x=//e.c"), mk("KRemove", "GET", "http://e.c/a/"),
+            mk("KStatic", "GET", "/%2Fevil.com/..{ROOT}/dir", mount="root"), mk("KStatic", "HEAD", "/%2fevil.com/..{ROOT}/dir", mount="root"),
+            mk("KStatic", "GET", "/%2F%2Fevil.com/..{ROOT}/dir", mount="root"), mk("KStatic", "GET", "/%2Fevil.com%2F..{ROOT}/dir/sub", mount="root"),
+            mk("KStatic", "GET", "/%2Fevil.com/..{ROOT}/dir"), mk("KStatic", "GET", "/dir", mount="root"), mk("KStatic", "GET", "//dir", mount="root"),
+            mk("KStatic", "GET", "/%5Cevil.com/..{ROOT}/dir", mount="root"),
             mk("KRemove", "GET", "/\\evil.com/"), mk("KAdd", "GET", "/\\evil.com"),
             mk("KAuth", "GET", "/p?x=//evil.com", login=LOGINS[2]), mk("KAuth", "POST", "/p"), mk("KRemove", "POST", "/a/"),
             mk("KAuth", "GET", "//evil.com/private"), mk("KAuth", "GET", "//user@evil.com:8080/x", login="login"),
@@ -270,8 +287,25 @@ def corpus_cases():
             mk("KRedirect", "GET", "/q", url="/x\r\nSet-Cookie: a=b"), mk("KRedirect", "GET", "/q", url="/\ud800")]
 
 
-def gen_target(rng, kind):
-    if kind == "KStatic":
+ENC_LEADS = ["/%2F", "/%2f", "/%2F%2F", "/%2f%2F", "/%5C", "/%5c", "/%2e%2e/", "/%252F", "/", "/."]
+ENC_HOSTS = ["evil.com", "evil.com:80", "user@evil.com", "e"]
+ENC_UPS = ["/..", "%2F..", "/%2e%2e", "/../.."]
+ENC_TAILS = ["/dir", "/dir", "/dir/sub", "/dir/", "/file.txt", "/nope", "", "/dir/../dir", "/dir%2Fsub"]
+
+
+def gen_encoded_static(rng):
+    """a percent-encoded slash (or backslash) right after the leading slash, a host-like segment, then a climb back to the
+    absolute path of the static root and into the fixture tree"""
+    return rng.choice(ENC_LEADS) + rng.choice(ENC_HOSTS) + rng.choice(ENC_UPS) + "{ROOT}" + rng.choice(ENC_TAILS)
+
+
+def gen_target(rng, kind, mount="catchall"):
+    if kind == "KStatic" and (mount == "root" or rng.random() < 0.15):
+        if rng.random() < 0.6:
+            t = gen_encoded_static(rng)
+        else:
+            t = rng.choice(["/", "/", "//", "///"]) + "/".join(rng.choice(STATIC_SEGS) for _ in range(rng.randrange(1, 4))) + rng.choice(["", "", "/"])
+    elif kind == "KStatic":
         lead = rng.choice(["/", "/", "/", "//", "///", "", "http://e.c/", "http://e.c//", "http://e.c"])
         t = lead + "/".join(rng.choice(STATIC_SEGS) for _ in range(rng.randrange(1, 4))) + rng.choice(["", "", "/", "//"])
         if not t.startswith(("/", "h")):
@@ -290,14 +324,15 @@ def gen_one(rng):
     kind = rng.choice(["KRemove", "KAdd", "KRemove", "KAdd", "KStatic", "KStatic", "KAuth", "KAuth", "KRedirect"])
     method = rng.choice(METHODS) if rng.random() < 0.85 else rng.choice(ODD_METHODS)
     host = rng.choice(HOSTS) if rng.random() < 0.93 else rng.choice(BAD_HOSTS)
-    target = gen_target(rng, kind)
+    mount = "root" if (kind == "KStatic" and rng.random() < 0.35) else "catchall"
+    target = gen_target(rng, kind, mount)
     if rng.random() < 0.03:     # malformed request target
         target = rng.choice(["", "/a b/", "/a\x01/", "/a\x7f", " /a/", "/a/ "]) if kind != "KStatic" else "/dir x"
     kw = {}
     if kind == "KAuth":
         kw = {"login": rng.choice(LOGINS), "user": rng.random() < 0.08}
     elif kind == "KStatic":
-        kw = {"default": rng.random() < 0.8}
+        kw = {"default": rng.random() < 0.8, "mount": mount}
     elif kind == "KRedirect":
         kw = {"url": rng.choice(REDIRECT_URLS), "permanent": rng.random() < 0.4, "status": rng.choice(STATUSES), "flush": rng.random() < 0.1}
     return mk(kind, method, target, host, **kw)
@@ -335,8 +370,14 @@ def gen_cases(rng, tier):
                     for tail in ("", "/"):
                         t = lead + "/".join(tup) + tail
                         out.append(mk("KStatic", "GET", t, default=True))
+                        if k <= 2:
+                            out.append(mk("KStatic", "GET", t, default=True, mount="root"))
                         if lead == "/":
                             out.append(mk("KStatic", "HEAD", t, default=False))
+        for lead, hostp, up, tail in itertools.product(ENC_LEADS, ENC_HOSTS[:2], ENC_UPS, ENC_TAILS):   # every encoded-lead static target
+            t = lead + hostp + up + "{ROOT}" + tail
+            out.append(mk("KStatic", "GET", t, mount="root"))
+            out.append(mk("KStatic", "HEAD", t, mount="catchall"))
         for url in REDIRECT_URLS:       # every redirect URL x status x permanent
             for st in STATUSES[2:]:
                 for perm in (False, True):
@@ -362,6 +403,9 @@ def classify(case, o):
     yield "method=" + (m if m in ("GET", "HEAD", "POST") else "other")
     path = case["target"].partition("?")[0]
     query = case["target"].partition("?")[2]
+    if case["kind"] == "KStatic":
+        yield "mount=" + case.get("mount", "catchall")
+        yield "encoded-lead=" + ("yes" if re.match(r"/%(2[Ff]|5[Cc])", path) else "no")
     yield "lead=" + ("//" if path.startswith("//") else "/\\" if path.startswith("/\\") else "/" if path.startswith("/")
                      else "scheme" if ":" in path.split("/")[0] else "other")
     yield "query=" + ("yes" if query else "no")
@@ -387,7 +431,7 @@ def shrink(case):
         yield dict(case, target=t.split("?")[0])
     for i in range(len(t)):
         c = t[:i] + t[i + 1:]
-        if c and (case["kind"] != "KStatic" or "%" not in t):
+        if c and (case["kind"] != "KStatic" or "%" not in t) and not (case.get("mount") == "root" and not c.startswith("/")):
             yield dict(case, target=c)
     if case["host"] != "h.example":
         yield dict(case, host="h.example")
